@@ -2,6 +2,7 @@ package main
 
 import (
 	"fmt"
+	"time"
 
 	"verif/double"
 	"verif/gen"
@@ -22,28 +23,56 @@ var c10 struct {
 // vector are executed inside the case. The last len(Specs) indexes enumerate
 // the SET exclusive-option table.
 func c10variants(idx int) (string, []grammar.Variant) {
+	name, vs, _ := c10variantsOf(idx)
+	return name, vs
+}
+
+// c10variantsOf also returns the well-formed vector the variants were derived from (nil for the SET table).
+func c10variantsOf(idx int) (string, []grammar.Variant, *grammar.Vector) {
 	nspec := len(grammar.Specs)
 	if idx >= nspec*c10.perSpec {
-		return "SET", grammar.SetExclusive(fmt.Sprintf("t%d", idx))
+		return "SET", grammar.SetExclusive(fmt.Sprintf("t%d", idx)), nil
 	}
 	spec := grammar.Specs[idx%nspec]
 	r := rng.New(c10.seed, rng.Str("C10"), uint64(idx))
 	v := grammar.Generate(spec, r, fmt.Sprintf("t%d", idx))
-	return spec.Name, grammar.IllFormed(v, true, r)
+	return spec.Name, grammar.IllFormed(v, true, r), v
 }
 
 func c10run(idx int) run.Result {
 	var res run.Result
 	res.Idx = idx
-	name, vs := c10variants(idx)
+	name, vs, valid := c10variantsOf(idx)
 	res.Classes = []string{"cmd:" + name}
+	// the well-formed request is sent behind [variant, ECHO] too when it is a plain core command (one handler
+	// operation whose call the grammar predicts exactly): nothing of the refused request may show up in its call
+	withValid := valid != nil && valid.Class == grammar.Core && !valid.Quit && len(valid.Expect) > 0
 	for vi, va := range vs {
 		tok := fmt.Sprintf("echo%d.%d", idx, vi)
 		reqs := []resp.Value{va.Req, resp.Cmd("ECHO", tok)}
+		if withValid {
+			reqs = append(reqs, valid.Value())
+		}
 		stream, ends := encodeReqs(reqs)
 		rec := double.NewRec()
+		before := time.Now()
 		pr := runPipe(newServer(rec), reqs, chunkAt(stream, ends), sconn.Script{End: sconn.EOF})
+		after := time.Now()
 		calls := rec.Snapshot()
+		var laterCalls []double.Call
+		if withValid && len(pr.Snap.WouldBlocks) >= 3 {
+			// calls made after the ECHO was answered belong to the well-formed request
+			cut := pr.Snap.WouldBlocks[2].Seq
+			var early []double.Call
+			for _, c := range calls {
+				if c.Seq > cut {
+					laterCalls = append(laterCalls, c)
+				} else {
+					early = append(early, c)
+				}
+			}
+			calls = early
+		}
 		res.Count("variants", 1)
 		res.Count("class:"+va.Class, 1)
 		key := gen.Hash64(stream[:ends[0]])
@@ -59,7 +88,7 @@ func c10run(idx int) run.Result {
 			res.Violate(sig+":panic", "an ill-formed request is answered with an error reply", pr.Panic+"\n"+clipS(pr.Stack, 1200), desc)
 			continue
 		}
-		if pr.Bad != "" || pr.Rest != 0 || len(pr.Frames) != 2 {
+		if pr.Bad != "" || pr.Rest != 0 || len(pr.Frames) != len(reqs) {
 			res.Violate(sig+":frames", "an ill-formed request is answered with exactly one reply and the next request is processed normally", fmt.Sprintf("frames=%d rest=%d bad=%q", len(pr.Frames), pr.Rest, pr.Bad), desc)
 			continue
 		}
@@ -74,6 +103,14 @@ func c10run(idx int) run.Result {
 		if !resp.Equal(pr.Frames[1], resp.BulkS(tok)) {
 			res.Violate(sig+":next", "the following request is processed normally", fmt.Sprintf("ECHO answered %s", clipS(pr.Frames[1].String(), 200)), desc)
 			continue
+		}
+		if withValid {
+			if why := matchCalls(valid, laterCalls, before, after); why != "" {
+				desc["later_calls"] = callStrs(laterCalls)
+				res.Violate(sig+":next-same-command", "the following requests on the connection are processed normally (no partial execution of the refused one)", "the well-formed "+name+" sent after the refused one: "+why, desc)
+				continue
+			}
+			res.Count("well_formed_followups_matched", 1)
 		}
 		if idx%61 == 0 && vi == 0 {
 			res.Sample = desc
@@ -97,7 +134,7 @@ func init() {
 	run.Register(&run.Prop{
 		ID: "C10", Level: "exploration",
 		Rule: func(tier string) string {
-			return "case = one well-formed vector of one grammar entry (every entry, several generated vectors each so that all option shapes occur) from which ALL ill-formed variants are derived systematically: each required position omitted (vector cut before it), each value position replaced by a null bulk, each numeric position replaced by non-numeric / fractional / overflowing tokens (fixed boundary tokens plus six seeded random 20..25-digit numbers per position), each pair list cut to a dangling half; plus the complete table of SET exclusive-option combinations, repetitions and non-positive expiries. Each variant runs as [variant, ECHO token] on a fresh scripted connection with a recording handler. Oracle: zero handler calls, reply 1 is an error frame, reply 2 is the echo. distinct_nontrivial = distinct variant request encodings (every variant is ill-formed, hence non-trivial); counters class:* give variants per class"
+			return "case = one well-formed vector of one grammar entry (every entry, several generated vectors each so that all option shapes occur) from which ALL ill-formed variants are derived systematically: each required position omitted (vector cut before it), each value position replaced by a null bulk, each numeric position replaced by non-numeric / fractional / overflowing tokens (fixed boundary tokens plus six seeded random 20..25-digit numbers per position), each pair list cut to a dangling half; plus the complete table of SET exclusive-option combinations, repetitions and non-positive expiries. Each variant runs as [variant, ECHO token, the well-formed vector itself] on a fresh scripted connection with a recording handler. Oracle: zero handler calls for the variant, reply 1 is an error frame, reply 2 is the echo, and the well-formed request behind them produces exactly the handler call(s) the grammar predicts (nothing of the refused request leaks into it). distinct_nontrivial = distinct variant request encodings (every variant is ill-formed, hence non-trivial); counters class:* give variants per class"
 		},
 		Assumptions: []string{"what is ill-formed is decided by the independent grammar (Redis command reference): arity, numeric syntax, pair completeness, SET option exclusivity"},
 		Setup: func(tier string, seed uint64) int {
